@@ -624,6 +624,86 @@ pub fn run(tier: Tier) -> i32 {
             }
         }
     });
+    // argument groupings: every ordered pair of binary operators in both groupings, every pair
+    // and triple of unary operators, as the argument of a macro whose body is `.dq @0` (alone, as
+    // a factor, behind a unary operator): pasting the argument must not regroup or simplify it.
+    // Arguments whose value the expression model does not define (division by zero, overflow)
+    // are left out; the oracle is the hand expansion, line by line.
+    let n_groupings;
+    {
+        use crate::exprm::{eval, Val, BINOPS, UNOPS};
+        let mut args: Vec<String> = vec![];
+        let vals = [(7i64, 9i64, 2i64), (100, 6, 4), (3, 1, 5)];
+        for op1 in BINOPS {
+            for op2 in BINOPS {
+                for (a, b, c) in vals {
+                    for e in [bin(op1, num(a), bin(op2, num(b), num(c))), bin(op2, bin(op1, num(a), num(b)), num(c))] {
+                        if matches!(eval(&e), Val::Value(_)) {
+                            args.push(e.render());
+                        }
+                    }
+                }
+            }
+        }
+        for u1 in UNOPS {
+            for u2 in UNOPS {
+                for inner in [bin(BinOp::And, num(6), num(2)), num(5), num(0), bin(BinOp::Sub, num(2), num(9))] {
+                    let e = un(u1, un(u2, inner.clone()));
+                    if matches!(eval(&e), Val::Value(_)) {
+                        args.push(e.render());
+                    }
+                    for u3 in UNOPS {
+                        let e = un(u3, un(u1, un(u2, inner.clone())));
+                        if matches!(eval(&e), Val::Value(_)) {
+                            args.push(e.render());
+                        }
+                    }
+                }
+            }
+        }
+        args.sort();
+        args.dedup();
+        n_groupings = args.len();
+        let bodies = [".dq @0", ".dq 3 * @0", ".dq -@0", ".dq @0 - 1", ".dq 64 / (@0 | 1)"];
+        // (where the body builds a larger expression around the parameter the argument is written
+        // in parentheses, in the call and in the hand expansion alike: textual and value
+        // substitution agree there, and the statement does not choose between them elsewhere)
+        let written = |arg: &str, body: &str| -> String { if body == ".dq @0" { arg.to_string() } else { format!("({})", arg) } };
+        let one = |arg: &str, body: &str| -> (String, String) {
+            let arg = written(arg, body);
+            (format!(".macro g_q\n{}\n.endm\ng_q {}\n", body, arg), format!("{}\n", body.replace("@0", &arg)))
+        };
+        // all arguments in one pair of programs per body first; localised per argument on a difference
+        bodies.par_iter().for_each(|body| {
+            let mut p1 = format!(".macro g_q\n{}\n.endm\n", body);
+            let mut p2 = String::new();
+            for a in &args {
+                let a = written(a, body);
+                p1.push_str(&format!("g_q {}\n", a));
+                p2.push_str(&format!("{}\n", body.replace("@0", &a)));
+            }
+            let (o1, o2) = (sut::build_str(&p1), sut::build_str(&p2));
+            let same = matches!((&o1, &o2), (Outcome::Ok(x), Outcome::Ok(y)) if x.code == y.code);
+            if same {
+                return;
+            }
+            for a in &args {
+                let (m, h) = one(a, body);
+                let (o1, o2) = (sut::build_str(&m), sut::build_str(&h));
+                let bad = match (&o1, &o2) {
+                    (Outcome::Ok(x), Outcome::Ok(y)) => x.code != y.code,
+                    // the value may be outside what the body can take (64 / (@0|1) never is; -@0 of i64::MIN): both must agree
+                    (Outcome::Err(_), Outcome::Err(_)) => false,
+                    _ => true,
+                };
+                if bad {
+                    let shape: String = a.chars().filter(|c| !c.is_ascii_digit() && *c != ' ').collect();
+                    rep.violation(&format!("C09/argument-regrouped/body={}/shape={}", body.replace(' ', ""), shape), || format!("`g_q {}` with the body `{}` gives {} but the hand expansion `{}` gives {}", a, body, o1.brief(), body.replace("@0", a), o2.brief()), || json!({"kind": "build_str", "source": m, "hand_expanded_program": h, "observed": o1.to_json()}));
+                }
+            }
+        });
+    }
+    rep.guard(n_groupings > 600, "fewer than 600 argument groupings");
     // alternation: calls of two families take turns, each with the same arguments every time -
     // what one macro's expansion changes (a flag, a constant, the position) must be seen by the
     // next expansion of the other one
@@ -738,6 +818,7 @@ pub fn run(tier: Tier) -> i32 {
         "err_outcomes": n_err.load(Ordering::Relaxed),
         "feature_use": *mac_use.lock().unwrap(),
         "repetition_programs": n_rep,
+        "argument_groupings": n_groupings,
         "alternation_programs": n_alt,
         "long_call_sequences": n_long,
         "calls_per_repetition_program": reps,
